@@ -97,18 +97,36 @@ func EvalText(text string, data map[string]interface{}) EvalOut {
 	return Eval(r, context.Background(), p.Src.Expression)
 }
 
-// WithTimeout runs f and reports false if it did not finish within d. The
-// goroutine is abandoned on timeout (the caller reports and stops).
+// WithTimeout runs f and reports false if it did not finish within d of
+// *observed running time*. The wait is made of short sleeps and only sleeps
+// that woke up on time are counted: when the whole machine (or this process)
+// stalls - heavy load, memory pressure - the late wake-ups show it and the
+// stalled interval is not held against f. A real hang (busy loop or deadlock)
+// still accumulates d of on-time ticks. The goroutine is abandoned on timeout
+// (the caller reports and stops).
 func WithTimeout(d time.Duration, f func()) bool {
 	done := make(chan struct{})
 	go func() {
 		defer close(done)
 		f()
 	}()
+	const tick = 100 * time.Millisecond
+	var good time.Duration
+	for good < d {
+		t0 := time.Now()
+		select {
+		case <-done:
+			return true
+		case <-time.After(tick):
+		}
+		if el := time.Since(t0); el < 3*tick {
+			good += el
+		}
+	}
 	select {
 	case <-done:
 		return true
-	case <-time.After(d):
+	default:
 		return false
 	}
 }
